@@ -11,7 +11,9 @@ Ev(name) == l <= Len(T) /\ T[l].e = name /\ l' = l + 1
 R == T[l]
 TReset == Ev("Reset") /\ img' = <<>> /\ have' = FALSE
 \* image of the program compiled from source (the driver read the source file)
-TCompiled == /\ Ev("Image") /\ R.how = "compiled" /\ ~have
+\* (the driver may always decline a binary and compile again: compiling the same source twice gives the same image)
+TCompiled == /\ Ev("Image") /\ R.how = "compiled"
+             /\ have => <<R.dump, R.results, R.reports>> = img
              /\ img' = <<R.dump, R.results, R.reports>> /\ have' = TRUE
 \* image of the program loaded from its binary (the driver read only the .b file)
 TLoaded == /\ Ev("Image") /\ R.how = "binary" /\ have
